@@ -117,6 +117,17 @@ def build(flavour="O2", quiet=True):
         link = [cxx] + oflags + ["-no-pie", "-o", os.path.join(bdir, "mvh")] + hobjs + objs + ldflags + ["-lrt", "-lpthread", "-ldl", "-lm"]
         if not _run(link, log):
             raise RuntimeError("link failed:\n" + "\n".join(log)[:20000])
+        # wsq_tso: the deque algorithm text compiled as C++ against shadow variables (no hooks needed)
+        tso_o = os.path.join(bdir, "wsq_tso.o")
+        cfg_inc = ["-I" + os.path.join(REPO, "src")] + ([] if os.path.exists(os.path.join(REPO, "src", "config.h")) else ["-I" + os.path.join(VERIF, "support")])
+        tso_cc = [cxx, "-std=gnu++11", "-fpermissive", "-w"] + oflags + ["-D_GNU_SOURCE", "-DHAVE_CONFIG_H", "-I" + hdir, "-I" + os.path.join(VERIF, "sim")] + cfg_inc + \
+                 ["-c", os.path.join(hdir, "wsq_tso.cc"), "-o", tso_o]
+        if not _run(tso_cc, log):
+            raise RuntimeError("wsq_tso compile failed:\n" + "\n".join(log)[:20000])
+        main_o = os.path.join(bdir, "h_mvh_main.o")
+        link2 = [cxx] + oflags + ["-no-pie", "-o", os.path.join(bdir, "wsq_tso"), main_o, tso_o] + objs + ldflags + ["-lrt", "-lpthread", "-ldl", "-lm"]
+        if not _run(link2, log):
+            raise RuntimeError("wsq_tso link failed:\n" + "\n".join(log)[:20000])
         open(os.path.join(bdir, ".ok"), "w").write(time.strftime("%F %T"))
         return bdir
     finally:
